@@ -436,6 +436,24 @@ def _truth_key(k, facts):
                         return True
                     if r[0] == "const" and isinstance(r[1], int) and l == x and (hi - 1 <= r[1] if op == "LtE" else hi - 1 < r[1]):
                         return True
+        if op == "In" and l[0] == "const" and isinstance(l[1], str) and len(l[1]) == 1:
+            # `c in x` read off the other ways of asking: the separator of x.partition(c) / x.rpartition(c), the sign of x.find(c)
+            for fk, fv in facts.items():
+                probe = fk
+                if probe[0] in ("item", "sub") and (probe[2] == 1 or probe[2] == ("const", 1)) and probe[1][0] == "call" and \
+                        probe[1][1][0] == "attr" and probe[1][1][1] == r and probe[1][1][2] in ("partition", "rpartition") and \
+                        probe[1][2] == (l,):
+                    return fv
+                if probe[0] == "cmp" and probe[1] in ("Lt", "Eq", "LtE"):
+                    for pos_, other in ((probe[2], probe[3]), (probe[3], probe[2])):
+                        if pos_[0] == "call" and pos_[1][0] == "attr" and pos_[1][1] == r and pos_[1][2] in ("find", "rfind") and \
+                                pos_[2][:1] == (l,) and len(pos_[2]) == 1 and other[0] == "const":
+                            if probe[1] == "Eq" and other[1] == -1:
+                                return not fv
+                            if probe[1] == "Lt" and pos_ is probe[2] and other[1] == 0:
+                                return not fv
+                            if probe[1] == "LtE" and pos_ is probe[3] and other[1] == 0:      # 0 <= x.find(c)
+                                return fv
         if op == "In":
             # x in <empty const>
             if r[0] == "const" and isinstance(r[1], (str, tuple, bytes)) and len(r[1]) == 0 and op == "In":
@@ -859,8 +877,38 @@ class Analyzer:
                 out.extend(self.exec_block(st.orelse, [sF], j))
         return out
 
+    def _helper_mutated_args(self, body):
+        """Caller variables handed to a helper that is analysed in place and changes that parameter in place
+        (`_resolve_segment(resolved_path, seg)` appends to / pops from its first parameter): loop-carried like any other
+        variable the loop body changes."""
+        out = set()
+        transparent = self.model.transparent()
+        for st in body:
+            for n in ast.walk(st):
+                if not isinstance(n, ast.Call):
+                    continue
+                target = None
+                skip = 0
+                if isinstance(n.func, ast.Name):
+                    r = self.model.resolve_global(self.fi.module, n.func.id)
+                    if r and r[0] == "func" and r[1].qual in transparent:
+                        target = r[1]
+                elif isinstance(n.func, ast.Attribute) and isinstance(n.func.value, ast.Name) and n.func.value.id in ("self", "cls") and self.fi.cls:
+                    q = f"{self.fi.module}.{self.fi.cls}.{n.func.attr}"
+                    if q in transparent and self.model.has_func(q):
+                        target, skip = self.model.func(q), 1
+                if target is None:
+                    continue
+                a = target.node.args
+                pos = [x.arg for x in a.posonlyargs + a.args][skip:]
+                changed = assigned_names(target.node.body)
+                for p_, arg in zip(pos, n.args):
+                    if isinstance(arg, ast.Name) and p_ in changed:
+                        out.add(arg.id)
+        return out
+
     def _loop_head(self, s, body, lid, extra=()):
-        names = {self._k(n) for n in assigned_names(body) | set(extra)}
+        names = {self._k(n) for n in assigned_names(body) | set(extra) | self._helper_mutated_args(body)}
         head = s.copy()
         for n in sorted(names):
             src = head.env.get(n, ("unknown", "unbound", 0))
@@ -919,6 +967,24 @@ class Analyzer:
             return self.s_For(d, s, j)
         out = []
         for s2, it in self.eval(st.iter, s):
+            # a module-level dispatch table - a tuple of (key, handler) tuples - is walked entry by entry
+            table = self._module_tuple(it) if it[0] == "global" and it[1] in self.model.modules else None
+            if table is not None and 1 <= len(table[1]) <= 8 and all(x[0] == "tuple" for x in table[1]) and \
+                    isinstance(st.target, (ast.Tuple, ast.List)):
+                live, broke = [s2], []
+                for entry in table[1]:
+                    nxt = []
+                    lj = {"break": [], "continue": []}
+                    for st_ in live:
+                        nxt.extend(self.exec_block(st.body, [self.assign(st.target, entry, st_, st)], lj))
+                    live = nxt + lj["continue"]
+                    broke.extend(lj["break"])
+                    if not live:
+                        break
+                after = self.exec_block(st.orelse, live, j) if st.orelse and live else live
+                out.extend(after)
+                out.extend(broke)
+                continue
             self._loop_n += 1
             lid = self._loop_n
             self.res.loops[lid] = st
@@ -1085,6 +1151,23 @@ class Analyzer:
         j["continue"].extend(lj["continue"])
         return out
 
+    def _module_tuple(self, base):
+        """The ("tuple", elements) term of a module-level name initialised once with a tuple display, else None."""
+        key = ("modtuple", base)
+        cache = self.model.__dict__.setdefault("_modtuple_cache", {})
+        if key not in cache:
+            cache[key] = None
+            r = self.model.resolve_global(base[1], base[2])
+            if r and r[0] == "value" and len(r[3]) == 1 and isinstance(getattr(r[3][0], "value", None), ast.Tuple):
+                try:
+                    from .fold import CannotFold, module_value
+                    t = module_value(self.model, r[1], r[2])
+                    if t[0] == "tuple":
+                        cache[key] = t
+                except Exception:
+                    cache[key] = None
+        return cache[key]
+
     def _truth_table(self, base, idx, s):
         """TABLE[bool(a), b == c] for a module-level dict display whose keys are tuples of True/False covering every combination:
         one path per feasible combination, with the entry as a constant. -> [(state, value term)] or None."""
@@ -1096,7 +1179,7 @@ class Analyzer:
                 return t
             return None
         conds = [cond_of(x) for x in idx[1]]
-        if any(c is None for c in conds) or base[0] != "global" or base[1] not in self.model.modules:
+        if base[0] != "global" or base[1] not in self.model.modules:
             return None
         r = self.model.resolve_global(base[1], base[2])
         if not r or r[0] != "value" or len(r[3]) != 1 or not isinstance(getattr(r[3][0], "value", None), ast.Dict):
@@ -1104,21 +1187,29 @@ class Analyzer:
         table = {}
         d = r[3][0].value
         for kn, vn in zip(d.keys, d.values):
-            if not (isinstance(kn, ast.Tuple) and all(isinstance(x, ast.Constant) and type(x.value) is bool for x in kn.elts)
+            if not (isinstance(kn, ast.Tuple) and len(kn.elts) == len(conds) and
+                    all(isinstance(x, ast.Constant) and type(x.value) in (bool, int, str) for x in kn.elts)
                     and isinstance(vn, ast.Constant) and type(vn.value) in (str, int)):
                 return None
             table[tuple(x.value for x in kn.elts)] = vn.value
-        combos = list(itertools.product((False, True), repeat=len(conds)))
-        if set(table) != set(combos):
-            return None
+        # a component is a truth value (keys True / False: both must occur) or any other value compared with the key's literal
+        for i, c in enumerate(conds):
+            col = {k[i] for k in table}
+            if all(type(v) is bool for v in col):
+                if c is None or col != {False, True}:
+                    return None
+            elif any(type(v) is bool for v in col):
+                return None
         out = []
-        for combo in combos:
+        for combo, value in table.items():
             cur = s
-            for c, v in zip(conds, combo):
-                cur = assume(cur, c, v) if cur is not None else None
+            for c, t, v in zip(conds, idx[1], combo):
+                if cur is None:
+                    break
+                cur = assume(cur, c, v) if type(v) is bool else assume(cur, ("cmp", "Eq", t, ("const", v)), True)
             if cur is not None:
-                out.append((cur, ("const", table[combo])))
-        return out
+                out.append((cur, ("const", value)))
+        return out or None
 
     def _eafp_lookup(self, st):
         """`try: return D[k]` / `except KeyError: return v` (or the same with an assignment to one name) for a module-level dict
@@ -1302,6 +1393,9 @@ class Analyzer:
                     import builtins as _b
                     if all(isinstance(getattr(_b, x.id, None), type) and self.model.resolve_global(r[1], x.id) is None for x in v.elts):
                         return ("tuple", tuple(("builtin", x.id) for x in v.elts))
+                # ... `_PCT = "%{:02X}".format` (a bound method of a string literal) is that attribute of the literal
+                if isinstance(v, ast.Attribute) and isinstance(v.value, ast.Constant) and type(v.value.value) is str:
+                    return ("attr", ("const", v.value.value), v.attr)
                 # ... `_find = PATTERN.search` (a bound method of another module-level value) is that attribute
                 if isinstance(v, ast.Attribute) and isinstance(v.value, ast.Name) and v.value.id != name:
                     r2 = self.model.resolve_global(r[1], v.value.id)
@@ -1341,8 +1435,11 @@ class Analyzer:
                         and all(x[0] != "star" for x in base[1]) and -len(base[1]) <= idx[1] < len(base[1]):
                     t = base[1][idx[1]]
                 # a two-entry constant table indexed by a truth value (`TABLE[x == 6]`, `TABLE[bool(sep)]`): one path per entry
+                tbl = base
+                if base[0] == "global" and base[1] in self.model.modules and (idx[0] == "cmp" or (idx[0] == "call" and idx[1] == ("builtin", "bool"))):
+                    tbl = self._module_tuple(base) or base      # a module-level pair of non-literal entries (bound formatters, functions)
                 rows = base[1] if base[0] == "const" and isinstance(base[1], tuple) and len(base[1]) == 2 else \
-                    (tuple(("term", x) for x in base[1]) if base[0] == "tuple" and len(base[1]) == 2 and all(x[0] != "star" for x in base[1]) else None)
+                    (tuple(("term", x) for x in tbl[1]) if tbl[0] == "tuple" and len(tbl[1]) == 2 and all(x[0] != "star" for x in tbl[1]) else None)
                 cond = idx[2][0] if idx[0] == "call" and idx[1] == ("builtin", "bool") and len(idx[2]) == 1 and not idx[3] else \
                     (idx if idx[0] == "cmp" or (idx[0] == "unop" and idx[1] == "Not") else None)
                 if rows is None and idx[0] == "tuple" and 1 <= len(idx[1]) <= 3:
@@ -1708,6 +1805,34 @@ class Analyzer:
 
     def e_Call(self, e, s):
         out = []
+        # functools.reduce(f, xs, init) is `acc = init; for x in xs: acc = f(acc, x)`: analysed as that loop (the helper is
+        # analysed in place when it is not an anchor), the value is the accumulator after the loop
+        if isinstance(e.func, ast.Name) and e.func.id == "reduce" and len(e.args) == 3 and not e.keywords and \
+                not any(isinstance(a, ast.Starred) for a in e.args) and self._k("reduce") not in s.env and \
+                self.global_term("reduce") == ("ext", "functools", "reduce"):
+            prog = getattr(e, "_as_loop", None)
+            if prog is None:
+                self._reduce_n = getattr(self, "_reduce_n", 0) + 1
+                acc, el = f"_reduce_acc{self._reduce_n}", f"_reduce_el{self._reduce_n}"
+                a0 = ast.Assign(targets=[ast.Name(id=acc, ctx=ast.Store())], value=e.args[2])
+                step = ast.Assign(targets=[ast.Name(id=acc, ctx=ast.Store())],
+                                  value=ast.Call(func=e.args[0], args=[ast.Name(id=acc, ctx=ast.Load()), ast.Name(id=el, ctx=ast.Load())], keywords=[]))
+                loop = ast.For(target=ast.Name(id=el, ctx=ast.Store()), iter=e.args[1], body=[step], orelse=[])
+                for n_ in (a0, loop):
+                    ast.copy_location(n_, e)
+                    for m_ in ast.walk(n_):
+                        if not hasattr(m_, "lineno"):
+                            ast.copy_location(m_, e)
+                    ast.fix_missing_locations(n_)
+                    n_._parent = getattr(e, "_parent", None)
+                for m_ in ast.walk(loop):
+                    for c_ in ast.iter_child_nodes(m_):
+                        if not hasattr(c_, "_parent"):
+                            c_._parent = m_
+                prog = e._as_loop = (acc, [a0, loop])
+            acc, stmts = prog
+            outs = self.exec_block(stmts, [s], {"break": [], "continue": []})
+            return [(st_, st_.env.get(self._k(acc), self.unknown("reduce"))) for st_ in outs]
         # any((a, b, c)) / all([a, b]) over a display is `a or b or c` / `a and b` as far as its truth goes
         if isinstance(e.func, ast.Name) and e.func.id in ("any", "all") and len(e.args) == 1 and not e.keywords and \
                 isinstance(e.args[0], (ast.Tuple, ast.List)) and 2 <= len(e.args[0].elts) <= 8 and \
@@ -1772,6 +1897,26 @@ class Analyzer:
                         kw0.update(dict(kwargs))
                         f, args_t, kwargs = f[2][0], tuple(f[2][1:]) + args_t, tuple(kw0.items())
                     args_t, kwargs = self._positionalise(f, args_t, kwargs)
+                    if f[0] == "attr" and f[2] == "get" and len(args_t) == 2 and args_t[1] == NONE and not kwargs and \
+                            f[1][0] == "global" and f[1][1] in self.model.modules:
+                        args_t = args_t[:1]        # D.get(k, None) is D.get(k) (module-level dict)
+                    # any(<tuple term>) / all(<tuple term>) (e.g. of an attrgetter object's result): decided element by element
+                    if f in (("builtin", "any"), ("builtin", "all")) and len(args_t) == 1 and not kwargs and \
+                            args_t[0][0] in ("tuple", "list") and 1 <= len(args_t[0][1]) <= 8 and all(x[0] != "star" for x in args_t[0][1]):
+                        want = f[1] == "any"
+                        live = [s3]
+                        for el in args_t[0][1]:
+                            nxt = []
+                            for st_ in live:
+                                hit = assume(st_, el, want)
+                                if hit is not None:
+                                    out.append((hit, ("const", want)))
+                                miss = assume(st_, el, not want)
+                                if miss is not None:
+                                    nxt.append(miss)
+                            live = nxt
+                        out.extend((st_, ("const", not want)) for st_ in live)
+                        continue
                     # Class.method(obj, ...) is obj.method(...) for a plain method of a package class
                     if f[0] == "attr" and f[1][0] == "global" and f[1][1] in self.model.modules and args_t and args_t[0][0] != "star":
                         rc = self.model.resolve_global(f[1][1], f[1][2])
@@ -1988,7 +2133,7 @@ class Analyzer:
             new = State(dict(s.env), st_c.facts, st_c.heap, s.ctx, st_c.trace)
             for p, caller_name in arg_names.items():
                 t = st_c.env.get(f"{q}:{p}")
-                if t is not None and t != env.get(p) and t[0] == "mut":
+                if t is not None and t != env.get(p) and t[0] in ("mut", "phi"):      # (a phi: mutated inside a loop of the helper)
                     new.env[self._k(caller_name)] = t        # the helper changed the caller's container in place
             res.append((new, val))
         return res
